@@ -83,6 +83,10 @@ def unit_fn(unit):
     return run_relation_unit(unit, script)
 
 
+def _in_scope(m, info):
+    return 'format' in info['functions']
+
+
 def make_units(tier, only):
     intro = common.introspect()
     units = []
@@ -96,6 +100,18 @@ def make_units(tier, only):
                 u = {'module': m, 'options': fo, 'L': L, 'K': 1}
                 u.update(dict(max_paths=1500, timeout=25, query_timeout_ms=5000) if tier == 'quick' else dict(max_paths=30000, timeout=400, query_timeout_ms=60000))
                 units.append(u)
+    import random
+    rnd = random.Random(common.seed() * 104729 + 11)
+    for m, info in sorted(intro.items()):
+        if only and m not in only:
+            continue
+        if not _in_scope(m, info):
+            continue
+        gs = getters(info) if 'getters' in globals() else None
+        for lit, pos in common.neighbourhoods(info, 2 if tier == 'quick' else 10, rnd):
+            u = dict({'module': m, 'options': {}, 'K': 2}, literal=lit, positions=pos, L=len(lit))
+            u.update(dict(max_paths=300, timeout=10, query_timeout_ms=5000) if tier == 'quick' else dict(max_paths=5000, timeout=120, query_timeout_ms=30000))
+            units.append(u)
     return units
 
 
